@@ -835,6 +835,10 @@ pub fn run_check(cfg: CheckCfg) -> i32 {
     let ev_dir = PathBuf::from(verif_root()).join("evidence");
     let _ = std::fs::create_dir_all(&ev_dir);
     std::fs::write(ev_dir.join(format!("{}.json", property)), serde_json::to_string_pretty(&evidence).unwrap()).expect("write evidence");
+    // A per-tier copy, so that a quick run does not erase what the last thorough run covered.
+    let tier_dir = ev_dir.join(tier);
+    let _ = std::fs::create_dir_all(&tier_dir);
+    let _ = std::fs::write(tier_dir.join(format!("{}.json", property)), serde_json::to_string_pretty(&evidence).unwrap());
 
     for k in &known_for_prop {
         println!(
